@@ -780,6 +780,189 @@ fn norm_case(ctx: &mut Ctx, s: &SPDC, o: &SPDC, meta: &Meta, detail: &str) {
   }
 }
 
+
+// ------------------------------------------------------------------------------------------------
+// S: sequences on one thread — the normalisation must not depend on what was wrapped before
+// ------------------------------------------------------------------------------------------------
+
+fn seq_integrators() -> Vec<(Integrator, &'static str, bool)> {
+  // (integrator, name, every accessor deterministic: sequential sums only)
+  vec![
+    (Integrator::Simpson { divs: 6 }, "simpson6", false),
+    (Integrator::Simpson { divs: 50 }, "simpson50", false),
+    (Integrator::Simpson { divs: 200 }, "simpson200", false),
+    (Integrator::GaussLegendre { degree: 4 }, "gl4", true),
+    (Integrator::GaussLegendre { degree: 40 }, "gl40", true),
+    (Integrator::AdaptiveSimpson { tolerance: 1e5, max_depth: 5 }, "adaptive", true),
+  ]
+}
+
+/// Simpson's rule sums with rayon (1-D from 128 divisions, 2-D always): with 200 divisions two evaluations of the *same*
+/// raw value differ by re-association, up to ~1e-8 where the integrand cancels strongly (C15's residual; not
+/// reproducible from run to run).  Comparisons that involve separately evaluated Simpson-200 values therefore use 1e-6;
+/// everything else (Simpson ≤ 50, Gauss–Legendre, adaptive) 1e-9.
+fn seq_tolerance(integ: &Integrator) -> f64 {
+  match integ {
+    Integrator::Simpson { divs } if *divs >= 128 => 1e-6,
+    _ => 1e-9,
+  }
+}
+
+/// normalised values of one spectrum at a few pairs (evaluated through the point accessors)
+fn normalised_at(js: &spdcalc::JointSpectrum, pts: &[(Frequency, Frequency)]) -> Vec<(Complex<f64>, f64, f64)> {
+  pts.iter().map(|(ws, wi)| (js.jsa_normalized(*ws, *wi), js.jsi_normalized(*ws, *wi), js.jsi_singles_normalized(*ws, *wi))).collect()
+}
+
+/// One setup wrapped back to back with different integrators (built first, checked afterwards, random order,
+/// optionally interleaved with `optimum_range`, which wraps the setup with Simpson-50 internally): every normalised
+/// value must equal the raw value ÷ the raw value at the optimised setup's centre *evaluated with the same
+/// integrator*, and the optimised setup must read 1 at its centre for every integrator.
+fn seq_case(ctx: &mut Ctx, s: &SPDC, o: &SPDC, detail: &str, history: &mut Vec<(SPDC, Integrator, &'static str, bool, Vec<(Frequency, Frequency)>, Vec<(Complex<f64>, f64, f64)>)>) {
+  let all = seq_integrators();
+  let k = ctx.rng.between(2, 4);
+  let mut order: Vec<usize> = (0..k).map(|_| ctx.rng.below(all.len())).collect();
+  if order.iter().all(|x| *x == order[0]) {
+    order[1] = (order[0] + 1 + ctx.rng.below(all.len() - 1)) % all.len();
+  }
+  let with_range = ctx.rng.below(3) == 0;
+  let range_at = ctx.rng.below(k + 1);
+  let (w0s, w0i) = (o.signal.frequency(), o.idler.frequency());
+  let sigma = fr(s.pump.frequency()) * 2e-4;
+  let d = ctx.rng.normal() * sigma;
+  let pts = vec![
+    (s.signal.frequency(), s.idler.frequency()),
+    (w0s, w0i),
+    (s.signal.frequency() + d * RAD / S, s.idler.frequency() - d * RAD / S),
+  ];
+  let names: Vec<&str> = order.iter().map(|i| all[*i].1).collect();
+  let seq_name = format!("{}{}", names.join(">"), if with_range { format!("+optimum_range@{}", range_at) } else { String::new() });
+
+  for (target, label) in [(s, "setup"), (o, "optimised")] {
+    // 1. build everything first, back to back, on this thread
+    let built = guard(|| {
+      let mut v = Vec::new();
+      for (pos, i) in order.iter().enumerate() {
+        if with_range && pos == range_at {
+          let _ = target.optimum_range(4);
+        }
+        v.push(target.joint_spectrum(all[*i].0));
+      }
+      if with_range && range_at == order.len() {
+        let _ = target.optimum_range(4);
+      }
+      v
+    });
+    let built = match built {
+      Some(b) => b,
+      None => {
+        ctx.count("skip/sequence-panic");
+        return;
+      }
+    };
+    // 2. read the normalised values
+    let vals: Vec<Vec<(Complex<f64>, f64, f64)>> = match guard(|| built.iter().map(|js| normalised_at(js, &pts)).collect()) {
+      Some(v) => v,
+      None => {
+        ctx.count("skip/sequence-panic");
+        return;
+      }
+    };
+    // 3. only now the references, each with its own integrator, through public calls on the optimised setup
+    for (pos, i) in order.iter().enumerate() {
+      let (integ, iname, _) = all[*i];
+      let r = guard(|| {
+        let jo = o.joint_spectrum(integ);
+        let ra = jo.jsa(w0s, w0i).norm();
+        let ri = *(jo.jsi(w0s, w0i) / spdcalc::JSIUnits::new(1.));
+        let rs = *(jo.jsi_singles(w0s, w0i) / spdcalc::JSIUnits::new(1.));
+        (ra, ri, rs)
+      });
+      let (ra, ri, rs) = match r {
+        Some(x) if x.0.is_finite() && x.0 > 0.0 && x.2.is_finite() && x.2 > 0.0 => x,
+        _ => {
+          ctx.count("skip/reference-zero-or-nonfinite");
+          continue;
+        }
+      };
+      let js = &built[pos];
+      let mut ok = true;
+      let mut why = String::new();
+      for (q, (ws, wi)) in pts.iter().enumerate() {
+        let (an, inn, sn) = vals[pos][q];
+        let a = js.jsa(*ws, *wi);
+        let iv = *(js.jsi(*ws, *wi) / spdcalc::JSIUnits::new(1.));
+        let sv = *(js.jsi_singles(*ws, *wi) / spdcalc::JSIUnits::new(1.));
+        let ta = seq_tolerance(&integ);
+        let ts = ta;
+        if !crel_ok(an, a / ra, ta) {
+          ok = false;
+          why = format!("jsa_normalized@{}: got |.|={:e} want {:e}", q, an.norm(), (a / ra).norm());
+        } else if !(rel_ok(inn, iv / ri, ta) || (inn - iv / ri).abs() <= 1e-200) {
+          ok = false;
+          why = format!("jsi_normalized@{}: got {:e} want {:e}", q, inn, iv / ri);
+        } else if !rel_ok(sn, sv / rs, ts) {
+          ok = false;
+          why = format!("jsi_singles_normalized@{}: got {:e} want {:e}", q, sn, sv / rs);
+        }
+      }
+      ctx.s(
+        "C20.sequence",
+        ok,
+        if ok { "sequence/norm-ok" } else { "sequence/normalised-value-depends-on-history" },
+        &format!("{} which={} seq={} pos={} integ={} why={}", detail, label, seq_name, pos, iname, if ok { "-".to_string() } else { why.replace(' ', "_") }),
+      );
+      if label == "optimised" {
+        // pts[1] is the optimised setup's centre
+        let (an, inn, sn) = vals[pos][1];
+        let ta = seq_tolerance(&integ);
+        let ts = ta;
+        let okc = (inn - 1.0).abs() <= ta && (an.norm() - 1.0).abs() <= ta && (sn - 1.0).abs() <= ts;
+        ctx.s(
+          "C20.sequence",
+          okc,
+          if okc { "sequence/centre-ok" } else { "sequence/centre-not-one" },
+          &format!("{} seq={} pos={} integ={} jsi_n={:e} abs_jsa_n={:e} singles_n={:e}", detail, seq_name, pos, iname, inn, an.norm(), sn),
+        );
+      }
+    }
+    // remember a sample for the history-independence pass at the end of the run
+    if history.len() < 40 && ctx.rng.below(3) == 0 {
+      let pos = ctx.rng.below(order.len());
+      let (integ, iname, det) = all[order[pos]];
+      history.push((target.clone(), integ, iname, det, pts.clone(), vals[pos].clone()));
+    }
+  }
+  ctx.count("sequence/setups");
+}
+
+/// history independence: spectra built much earlier in the run, re-built at the very end (after many other setups and
+/// integrators went through the same thread), must give the same normalised values — bit-identical where every sum
+/// is sequential, 1e-9 where rayon re-associates
+fn history_pass(ctx: &mut Ctx, history: &[(SPDC, Integrator, &'static str, bool, Vec<(Frequency, Frequency)>, Vec<(Complex<f64>, f64, f64)>)]) {
+  for (k, (setup, integ, iname, det, pts, old)) in history.iter().enumerate() {
+    let newv = match guard(|| normalised_at(&setup.joint_spectrum(*integ), pts)) {
+      Some(v) => v,
+      None => continue,
+    };
+    let mut ok = true;
+    for (a, b) in old.iter().zip(newv.iter()) {
+      let same_bits = a.0.re.to_bits() == b.0.re.to_bits() && a.0.im.to_bits() == b.0.im.to_bits() && a.1.to_bits() == b.1.to_bits();
+      let ta = seq_tolerance(integ);
+      let ts = ta;
+      let close = crel_ok(a.0, b.0, ta) && (rel_ok(a.1, b.1, ta) || (a.1 - b.1).abs() <= 1e-200) && rel_ok(a.2, b.2, ts);
+      if !(if *det { same_bits && close } else { close }) {
+        ok = false;
+      }
+    }
+    ctx.s(
+      "C20.sequence",
+      ok,
+      if ok { "sequence/history-ok" } else { "sequence/rebuilt-spectrum-differs" },
+      &format!("sample={} integ={} deterministic={} cfg={}", k, iname, *det as u8, cfg_str(&serde_json::to_value(setup.clone().as_config()).unwrap())),
+    );
+  }
+}
+
 const SWEEP_PROPS: &[(&str, f64, f64)] = &[
   ("crystal.theta_deg", 0.0, 90.0),
   ("crystal.phi_deg", 0.0, 90.0),
@@ -879,6 +1062,7 @@ pub fn run(ctx: &mut Ctx) {
   };
   let mut done = 0usize;
   let mut tries = 0usize;
+  let mut history = Vec::new();
   // a fixed familiar setup first
   let mut fixed = vec![SPDC::default()];
   while done < ctx.n && tries < ctx.n * 20 {
@@ -936,5 +1120,9 @@ pub fn run(ctx: &mut Ctx) {
     if done % 3 == 0 {
       sweep_case(ctx, &s, &o, &detail);
     }
+    if done % 2 == 0 || done <= 3 {
+      seq_case(ctx, &s, &o, &detail, &mut history);
+    }
   }
+  history_pass(ctx, &history);
 }
